@@ -24,6 +24,8 @@ def jtry():
 
 
 def sample_try(o):
+    if o.get("fam") == "fetch":
+        return {"library_context": o["kind"], "keys": o["km"], "history": o["ops"][:4]}
     t = o["tries"][len(o["tries"]) // 2] if o.get("tries") else {}
     return {"src": o["src"], "variant": o["var"].get("m"), "available": t.get("av"),
             "env": o["envs"][t["e"] - 1] if t else None, "tryeval": t.get("res"),
@@ -90,11 +92,15 @@ PLANS = {
         "sample": sample_eval, "assumptions": EVAL_ASSUME,
     },
     "C04": {
-        "mc": {"quick": [{"module": "MCTry", "cfg": "cfg/MCTry.quick.cfg", "emit_cases": "cases.ndjson"}],
-               "thorough": [{"module": "MCTry", "cfg": "cfg/MCTry.thorough.cfg", "timeout": 3400, "emit_cases": "cases.ndjson"}]},
+        "mc": {"quick": [{"module": "MCTry", "cfg": "cfg/MCTry.quick.cfg", "emit_cases": "cases.ndjson"},
+                         {"module": "MCFetch", "cfg": "cfg/MCFetch.quick.cfg"}],
+               "thorough": [{"module": "MCTry", "cfg": "cfg/MCTry.thorough.cfg", "timeout": 3400, "emit_cases": "cases.ndjson"},
+                            {"module": "MCFetch", "cfg": "cfg/MCFetch.thorough.cfg"}]},
         "drive": {"quick": [{"args": ["try", "-for", "C04", "-cases", "{S}/cases.ndjson", "-exh", "1", "-exhmax", "150", "-n", "450", "-depth", "4",
-                                      "-seed", "{seed}", "-progevery", "8"]}],
-                  "thorough": [{"args": ["try", "-for", "C04", "-cases", "{S}/cases.ndjson", "-exh", "2", "-exhmax", "6000", "-n", "9000", "-depth", "5",
+                                      "-seed", "{seed}", "-progevery", "8"]},
+                            {"args": ["fetch", "-for", "C04", "-n", "400", "-seed", "{seed}"]}],
+                  "thorough": [{"args": ["fetch", "-for", "C04", "-n", "6000", "-seed", "{seed}"]},
+                               {"args": ["try", "-for", "C04", "-cases", "{S}/cases.ndjson", "-exh", "2", "-exhmax", "6000", "-n", "9000", "-depth", "5",
                                          "-seed", "{seed}", "-progevery", "50"]}]},
         "judge": jtry(),
         "replay_args": ["try", "-for", "C04", "-n", "0", "-progevery", "1"],
@@ -105,11 +111,15 @@ PLANS = {
         "sample": sample_try, "assumptions": EVAL_ASSUME,
     },
     "C05": {
-        "mc": {"quick": [{"module": "MCTry", "cfg": "cfg/MCTry.quick.cfg", "emit_cases": "cases.ndjson"}],
-               "thorough": [{"module": "MCTry", "cfg": "cfg/MCTry.thorough.cfg", "timeout": 3400, "emit_cases": "cases.ndjson"}]},
+        "mc": {"quick": [{"module": "MCTry", "cfg": "cfg/MCTry.quick.cfg", "emit_cases": "cases.ndjson"},
+                         {"module": "MCFetch", "cfg": "cfg/MCFetch.quick.cfg"}],
+               "thorough": [{"module": "MCTry", "cfg": "cfg/MCTry.thorough.cfg", "timeout": 3400, "emit_cases": "cases.ndjson"},
+                            {"module": "MCFetch", "cfg": "cfg/MCFetch.thorough.cfg"}]},
         "drive": {"quick": [{"args": ["try", "-for", "C05", "-cases", "{S}/cases.ndjson", "-exh", "1", "-exhmax", "200", "-n", "900", "-depth", "4",
-                                      "-seed", "{seed}", "-progevery", "8"]}],
-                  "thorough": [{"args": ["try", "-for", "C05", "-cases", "{S}/cases.ndjson", "-exh", "2", "-exhmax", "8000", "-n", "20000", "-depth", "5",
+                                      "-seed", "{seed}", "-progevery", "8"]},
+                            {"args": ["fetch", "-for", "C05", "-n", "400", "-seed", "{seed}"]}],
+                  "thorough": [{"args": ["fetch", "-for", "C05", "-n", "6000", "-seed", "{seed}"]},
+                               {"args": ["try", "-for", "C05", "-cases", "{S}/cases.ndjson", "-exh", "2", "-exhmax", "8000", "-n", "20000", "-depth", "5",
                                          "-seed", "{seed}", "-progevery", "50"]}]},
         "judge": jtry(),
         "replay_args": ["try", "-for", "C05", "-n", "0", "-progevery", "1"],
